@@ -120,6 +120,14 @@ def _map_query_error(error: duckdb.Error, sql_query: str) -> Exception:
                 date_val = parts[1]
         return RunTimeError("2-1-19-8", date=date_val)
 
+    # A string value that cannot be converted to a number (e.g. cast("abc", number))
+    if "conversion error" in msg_lower and "could not convert string" in msg_lower:
+        m = re.search(r"Could not convert string '([^']*)' to (\w+)", msg)
+        value = m.group(1) if m else "unknown"
+        target = m.group(2).upper() if m else ""
+        type_2 = "Number" if target in ("DOUBLE", "FLOAT") or target.startswith("DECIMAL") else "Integer"
+        return RunTimeError("2-1-5-1", value=value, type_1="String", type_2=type_2)
+
     # VTL macro vtl_div: denominator was 0 (mirrors Python engine error 2-1-15-6)
     if "vtl 2-1-15-6" in msg_lower:
         return RunTimeError("2-1-15-6", op="/")
